@@ -1,10 +1,12 @@
 //! nvh - the NOMT verification harness.  Sub-commands produce observation traces for TLC and
 //! evaluate byte-level predicates; the TLA+ specifications in /verif/spec are the oracle.
 
+mod conc;
 mod concr;
 mod crash;
 mod decode;
 mod hooks;
+mod lock;
 mod proofs;
 mod rec;
 mod refmodel;
@@ -25,6 +27,8 @@ fn main() {
         "proofs" => proofs::main(rest),
         "crash" => crash::main(rest),
         "decode" => decode::main(rest),
+        "conc" => conc::main(rest),
+        "lock" => lock::main(rest),
         other => Err(anyhow::anyhow!("unknown sub-command {other}")),
     };
     if let Err(e) = r {
